@@ -19,3 +19,4 @@ for kind in ("file-ops", "metadata-only"):
 for mode in ("append", "delete", "both"):
     register(Unit(P, f"DERIVE/_commit_file_ops-{mode}", cp.h_commit_file_ops(mode), functions=[f"{cp.TX}:Transaction._commit_file_ops"], replay=cp._replay_tx))
 register(Unit(P, "DERIVE/create_snapshot", cp.h_create_snapshot, functions=[f"{cp.SM}:SnapshotManager.create_snapshot"], replay=cp._replay_tx))
+register(Unit(P, "DERIVE/delete_snapshot", cp.h_delete_snapshot, functions=[f"{cp.SM}:SnapshotManager.delete_snapshot"], replay=cp._replay_tx))
